@@ -8,7 +8,11 @@
 import Proofs.C14.Moves
 import Proofs.C14.Amounts
 import Proofs.C14.Liquidation
+import Proofs.C14.Long
+import Proofs.C01.Squeeth
+import Proofs.C04.Squeeth
 import Mathlib.Tactic.FieldSimp
+import Mathlib.Tactic.LinearCombination
 namespace Demeter
 open Squeeth Gen
 
@@ -93,16 +97,21 @@ theorem C03_squeeth_mint_conserves_value (e : Env) (s : State) (vk : Nat) (v : V
 
 /-- **no negative holdings** (the frozen-market instance of C14_amounts_never_negative): any operation, any arguments,
     accepted or rejected -/
-theorem C03_squeeth_no_negative_holdings (e : Env) (s : State) (op : Op) (hp : 0 ≤ twap e .osqth) (h : Inv s) :
-    Inv (step NumCtx.exact e s op).st := C14_amounts_never_negative e s op hp h
+theorem C03_squeeth_no_negative_holdings (e : Env) (s : State) (op : Op) (hp : 0 ≤ twap e .osqth)
+    (hq : op.isTrade = true → PoolOk e) (h : Inv s) :
+    Inv (step NumCtx.exact e s op).st := C14_amounts_never_negative e s op hp hq h
 
-/-- … anywhere in a sequence at one fixed market state -/
+/-- … anywhere in a sequence at one fixed market state (vault operations and trades of the long side in any order; the pool's
+    price is non-negative and its fee rate at most 1) -/
 theorem C03_squeeth_no_negative_holdings_in_sequences (e : Env) (s : State) (ops : List Op) (hp : 0 ≤ twap e .osqth)
-    (h : Inv s) : Inv (runOps NumCtx.exact s (ops.map fun op => (e, op))) :=
+    (hq : PoolOk e) (h : Inv s) : Inv (runOps NumCtx.exact s (ops.map fun op => (e, op))) :=
   C14_amounts_never_negative_along_paths s _ (by
     intro eo heo
     obtain ⟨op, _, rfl⟩ := List.mem_map.mp heo
-    exact hp) h
+    exact hp) (by
+    intro eo heo _
+    obtain ⟨op, _, rfl⟩ := List.mem_map.mp heo
+    exact hq) h
 
 /-- **no over-redemption**: a burn takes `min(requested, debt)` oSQTH, a withdrawal pays `min(requested, collateral)` ETH -/
 theorem C03_squeeth_no_over_redemption (e : Env) (s : State) (vk : Nat) :
@@ -293,7 +302,169 @@ theorem C03_squeeth_fails_underwater_liquidation :
   revert this
   decide +kernel
 
+
+/-! ### the long side on a frozen bar: the swap fee is lost, nothing is created -/
+namespace Squeeth
+theorem debit_value_cases (b amt b' : Rat) (h : assetSub NumCtx.exact b amt false = some b') :
+    b' = b - amt ∨ (b' = 0 ∧ ratAbs (amt - b) ≤ assetDust * ratAbs b) := by
+  rcases C14_debit_exact_or_dust b amt b' h with ⟨h1, _⟩ | ⟨h1, hb0, hd⟩ | ⟨h1, h2, h3⟩ | ⟨h1, h2, hd⟩
+  · exact Or.inl h1
+  · exact Or.inr ⟨h1, dust_bound b amt assetDust hb0 hd⟩
+  · left; rw [h1, h2, h3]; ring
+  · by_cases he : amt = 0
+    · left; rw [h1, h2, he]; ring
+    · exfalso
+      have e1 : (0 - amt) / amt = -1 := by field_simp; ring
+      rw [e1] at hd
+      unfold ratAbs assetDust Gen.assetSubDust at hd
+      norm_num at hd
+end Squeeth
+
+/-- **a buy loses exactly the reported fee** (frozen bar: the pool trades at the price the account values oSQTH with): an accepted
+    `buy_squeeth` reports `(fee, spent, got)` with `fee ≥ 0` in WETH, and the wallet's value falls by exactly `fee × ETH price` — or,
+    when `Asset.sub` snaps the WETH remainder to zero, differs from that by less than 1e-5 of the WETH balance it touched -/
+theorem C03_squeeth_buy_loses_fee_within_dust (e : Env) (s : State) (o q : Option Rat) (hw : 0 ≤ e.weth) (hf0 : 0 ≤ e.uniFee)
+    (hfrozen : e.uniPrice = e.osqth) (h : (step NumCtx.exact e s (.buy o q)).err = none) :
+    ∃ fee spent got, (step NumCtx.exact e s (.buy o q)).out = [fee, spent, got] ∧ 0 ≤ fee ∧
+      (walletValue e (step NumCtx.exact e s (.buy o q)).st = walletValue e s - fee * e.weth ∨
+       ratAbs (walletValue e (step NumCtx.exact e s (.buy o q)).st - (walletValue e s - fee * e.weth)) ≤
+         assetDust * ratAbs (bal s sqWethName) * e.weth) := by
+  obtain ⟨a, _, h0, h1⟩ := C14_buy_moves_exactly e s o q h
+  by_cases ha : a = 0
+  · rw [h0 ha]
+    exact ⟨0, 0, 0, rfl, le_refl 0, Or.inl (by simp)⟩
+  · obtain ⟨hp, hf, hc, b, b', hb, hsub, hb', hbo, hout, _⟩ := h1 ha
+    refine ⟨_, _, _, hout, mul_nonneg hc hf0, ?_⟩
+    have hw0 : bal s sqWethName = b := by unfold bal; rw [hb]; rfl
+    have hw1 : bal (step NumCtx.exact e s (.buy o q)).st sqWethName = b' := by unfold bal; rw [hb']; rfl
+    have hap : a * e.osqth = buyCost e a - buyCost e a * e.uniFee := by
+      unfold buyCost; rw [hfrozen]; field_simp
+    unfold walletValue markO
+    rw [hw0, hw1, hbo]
+    rcases debit_value_cases b _ b' hsub with h2 | ⟨h2, hd⟩
+    · left; rw [h2]; linear_combination e.weth * hap
+    · right
+      rw [h2]
+      have e1 : (0 * e.weth + (bal s sqOsqthName + a) * (e.osqth * e.weth)) -
+          (b * e.weth + bal s sqOsqthName * (e.osqth * e.weth) - buyCost e a * e.uniFee * e.weth) = (buyCost e a - b) * e.weth := by
+        linear_combination e.weth * hap
+      rw [e1, ratAbs_mul_nonneg _ _ hw]
+      exact mul_le_mul_of_nonneg_right hd hw
+
+/-- **a sell loses exactly the reported fee**: the fee is in oSQTH, the wallet's value falls by `fee × mark price` (or differs from
+    that by less than 1e-5 of the oSQTH balance when the remainder is snapped to zero) -/
+theorem C03_squeeth_sell_loses_fee_within_dust (e : Env) (s : State) (o q : Option Rat) (hm : 0 ≤ markO e) (hf0 : 0 ≤ e.uniFee)
+    (hfrozen : e.uniPrice = e.osqth) (h : (step NumCtx.exact e s (.sell o q)).err = none) :
+    ∃ fee sold got, (step NumCtx.exact e s (.sell o q)).out = [fee, sold, got] ∧ 0 ≤ fee ∧
+      (walletValue e (step NumCtx.exact e s (.sell o q)).st = walletValue e s - fee * markO e ∨
+       ratAbs (walletValue e (step NumCtx.exact e s (.sell o q)).st - (walletValue e s - fee * markO e)) ≤
+         assetDust * ratAbs (bal s sqOsqthName) * markO e) := by
+  obtain ⟨a, _, ha0, h0, h1⟩ := C14_sell_moves_exactly e s o q h
+  by_cases ha : a = 0
+  · rw [h0 ha]
+    exact ⟨0, 0, 0, rfl, le_refl 0, Or.inl (by simp)⟩
+  · obtain ⟨b, b', hb, hsub, hb', hbw, hout, _⟩ := h1 ha
+    refine ⟨_, _, _, hout, mul_nonneg ha0 hf0, ?_⟩
+    have hw0 : bal s sqOsqthName = b := by unfold bal; rw [hb]; rfl
+    have hw1 : bal (step NumCtx.exact e s (.sell o q)).st sqOsqthName = b' := by unfold bal; rw [hb']; rfl
+    unfold walletValue
+    rw [hw0, hw1, hbw, hfrozen]
+    rcases debit_value_cases b _ b' hsub with h2 | ⟨h2, hd⟩
+    · left; rw [h2]; unfold markO; ring
+    · right
+      rw [h2]
+      have e1 : ((bal s sqWethName + (a - a * e.uniFee) * e.osqth) * e.weth + 0 * markO e) -
+          (bal s sqWethName * e.weth + b * markO e - a * e.uniFee * markO e) = (a - b) * markO e := by
+        unfold markO; ring
+      rw [e1, ratAbs_mul_nonneg _ _ hm]
+      exact mul_le_mul_of_nonneg_right hd hm
+
+namespace Squeeth
+/-- the wallet keeps its oSQTH entry through a trade (so `get_market_balance` stays defined) -/
+theorem trade_keeps_osqth_entry (e : Env) (s : State) (op : Op) (hop : op.isTrade = true) (l : Rat)
+    (hl : AList.get? s.wallet sqOsqthName = some l) : ∃ l', AList.get? (step NumCtx.exact e s op).st.wallet sqOsqthName = some l' := by
+  cases herr : (step NumCtx.exact e s op).err with
+  | some er => rw [C04_squeeth_rejected_trade_leaves_state_intact _ e s op hop (by rw [herr]; simp)]; exact ⟨l, hl⟩
+  | none =>
+    cases op with
+    | buy o q =>
+      obtain ⟨a, _, h0, h1⟩ := C14_buy_moves_exactly e s o q herr
+      by_cases ha : a = 0
+      · rw [h0 ha]; exact ⟨l, hl⟩
+      · obtain ⟨_, _, _, b, b', _, _, _, hbo, _⟩ := h1 ha
+        have hstep : step NumCtx.exact e s (.buy o q) = buySqueethOp NumCtx.exact e s o q := rfl
+        obtain ⟨a', _, h0' | ⟨_, _, _, _, w1, _, _, _, hw, _⟩⟩ := buy_ok_exact e s o q (by rw [← hstep]; exact herr)
+        · rw [hstep, h0'.2]; exact ⟨l, hl⟩
+        · rw [hstep, hw, get?_credit_self]; exact ⟨_, rfl⟩
+    | sell o q =>
+      obtain ⟨a, _, _, h0, h1⟩ := C14_sell_moves_exactly e s o q herr
+      by_cases ha : a = 0
+      · rw [h0 ha]; exact ⟨l, hl⟩
+      · obtain ⟨b, b', _, _, hb', _⟩ := h1 ha
+        exact ⟨b', hb'⟩
+    | _ => simp [Op.isTrade] at hop
+end Squeeth
+
+/-- **on a frozen bar a trade of the long side never raises the account's net value** beyond the wallet's 1e-5 dust: the reported net
+    value (wallet at the row's prices + `SqueethMarket.get_market_balance().net_value` + the pool's net value × ETH price) after
+    `buy_squeeth` / `sell_squeeth` — any arguments, accepted or rejected — is at most the value before plus 1e-5 of the WETH and oSQTH
+    balances; the market parts do not move at all (`C01_squeeth_trade_moves_no_market_value`), the wallet loses the fee -/
+theorem C03_squeeth_trade_never_raises_net_value (e : Env) (s : State) (op : Op) (hop : op.isTrade = true) (hw : 0 ≤ e.weth)
+    (hm : 0 ≤ markO e) (hf0 : 0 ≤ e.uniFee) (hfrozen : e.uniPrice = e.osqth) (x : Rat) (hx : reportedValue e s = some x) :
+    ∃ x', reportedValue e (step NumCtx.exact e s op).st = some x' ∧
+      x' - x = walletValue e (step NumCtx.exact e s op).st - walletValue e s ∧
+      x' ≤ x + assetDust * (ratAbs (bal s sqWethName) * e.weth + ratAbs (bal s sqOsqthName) * markO e) := by
+  have hd1 : 0 ≤ assetDust * ratAbs (bal s sqWethName) * e.weth :=
+    mul_nonneg (mul_nonneg (by unfold assetDust Gen.assetSubDust; norm_num) (ratAbs_nonneg _)) hw
+  have hd2 : 0 ≤ assetDust * ratAbs (bal s sqOsqthName) * markO e :=
+    mul_nonneg (mul_nonneg (by unfold assetDust Gen.assetSubDust; norm_num) (ratAbs_nonneg _)) hm
+  -- the market parts
+  unfold reportedValue at hx ⊢
+  cases hb : marketBalance NumCtx.exact e s with
+  | error er => simp [hb] at hx
+  | ok b =>
+    simp only [hb, Option.some.injEq] at hx
+    obtain ⟨_, hu, _, hmb⟩ := C01_squeeth_trade_moves_no_market_value NumCtx.exact e s op hop
+    have hl : ∃ l, AList.get? s.wallet sqOsqthName = some l := by
+      unfold marketBalance at hb
+      cases hg : AList.get? s.wallet sqOsqthName with
+      | none => simp [hg] at hb
+      | some l => exact ⟨l, rfl⟩
+    obtain ⟨l, hl⟩ := hl
+    obtain ⟨l', hl'⟩ := trade_keeps_osqth_entry e s op hop l hl
+    rw [hmb b l' hb hl', hu]
+    refine ⟨_, rfl, by rw [← hx]; ring, ?_⟩
+    -- the wallet part
+    have hwv : walletValue e (step NumCtx.exact e s op).st ≤ walletValue e s +
+        assetDust * (ratAbs (bal s sqWethName) * e.weth + ratAbs (bal s sqOsqthName) * markO e) := by
+      cases herr : (step NumCtx.exact e s op).err with
+      | some er =>
+        rw [C04_squeeth_rejected_trade_leaves_state_intact _ e s op hop (by rw [herr]; simp)]; nlinarith
+      | none =>
+        have habs : ∀ (v t : Rat), ratAbs (v - t) ≤ ratAbs (v - t) → v ≤ t + ratAbs (v - t) := by
+          intro v t _; unfold ratAbs; split_ifs <;> linarith
+        cases op with
+        | buy o q =>
+          obtain ⟨fee, _, _, _, hfee, h1 | h1⟩ := C03_squeeth_buy_loses_fee_within_dust e s o q hw hf0 hfrozen herr
+          · rw [h1]; nlinarith [mul_nonneg hfee hw]
+          · have := habs _ _ (le_refl (ratAbs (walletValue e (step NumCtx.exact e s (.buy o q)).st - (walletValue e s - fee * e.weth))))
+            nlinarith [mul_nonneg hfee hw]
+        | sell o q =>
+          obtain ⟨fee, _, _, _, hfee, h1 | h1⟩ := C03_squeeth_sell_loses_fee_within_dust e s o q hm hf0 hfrozen herr
+          · rw [h1]; nlinarith [mul_nonneg hfee hm]
+          · have := habs _ _ (le_refl (ratAbs (walletValue e (step NumCtx.exact e s (.sell o q)).st - (walletValue e s - fee * markO e))))
+            nlinarith [mul_nonneg hfee hm]
+        | _ => simp [Op.isTrade] at hop
+    rw [← hx]; linarith
+
 /-! ### non-vacuity -/
+-- a frozen bar (pool price = the row's oSQTH price), a buy of 2 oSQTH and a sell of 1: accepted, and the reported value falls by the fee
+example : findEnv.uniPrice = findEnv.osqth ∧ 0 ≤ findEnv.weth ∧ 0 ≤ markO findEnv ∧ 0 ≤ findEnv.uniFee := by
+  refine ⟨rfl, ?_, ?_, ?_⟩ <;> norm_num [findEnv, markO]
+example : (step NumCtx.exact findEnv findState (.buy (some 2) none)).err = none := by decide +kernel
+example : (step NumCtx.exact findEnv (step NumCtx.exact findEnv findState (.buy (some 2) none)).st (.sell (some 1) none)).err = none := by decide +kernel
+example : (reportedValue findEnv (step NumCtx.exact findEnv findState (.buy (some 2) none)).st).map (fun x' => decide (x' < ((reportedValue findEnv findState).getD 0))) =
+    some true := by decide +kernel
 example : (reportedValue findEnv findState).isSome = true := by decide +kernel
 example : (step NumCtx.exact findEnv findState (.burnWithdraw 1 0 (1/2))).err = none := by decide +kernel
 
